@@ -352,10 +352,14 @@ class Run:
         if move is not None:
             # the tissue is handed over displaced by -move and its vertices are then moved in place by +move, the way
             # TimeSeries does for ForSys(frames, cm=True): everything read later must come from the live positions
-            self.frame = gen.to_frame(gen.transform(t, shift=(-float(move[0]), -float(move[1]))))
+            # `move` is in tissue sizes: an absolute displacement would cost digits on a tissue given in a small unit
+            # ((x - d) + d != x in floating point) and show up as an error of the harness, not of forsys
+            size = tissue_size(t)
+            mx, my = float(move[0]) * size, float(move[1]) * size
+            self.frame = gen.to_frame(gen.transform(t, shift=(-mx, -my)))
             for v in self.frame.vertices.values():
-                v.x += float(move[0])
-                v.y += float(move[1])
+                v.x += mx
+                v.y += my
         elif mesh_ne:
             v, e, c = gen.build(t)
             v, e, c, _ = fs.virtual_edges.generate_mesh(v, e, c, ne=int(mesh_ne))
@@ -598,6 +602,8 @@ def _case_b02(spec):
                 continue
             tg = tr.tangent(itf, p, j)
             tol = dict([("two-point", TOL_TWO), ("arc", TOL_ARC), ("flat", TOL_FLAT)])[cls]
+            if spec.get("move") and cls == "two-point":
+                tol = 1e-9          # the live positions are (x - d) + d: a rounding of the harness relative to the chord length
             err = max(abs(got[0] - tg[0]), abs(got[1] - tg[1]))
             info["count"]["coef_" + cls] += 1
             d = first_chord(run.pos, p, j)
@@ -1022,7 +1028,7 @@ def cases_b02(tier, seed):
         ts["xf"] = rand_xf(rng)
         out.append(dict(check="B02", tissue=ts, fit=str(rng.choice(["dlite", "taubinSVD"])), ign=bool(rng.random() < 0.3)))
         if rng.random() < 0.15:      # vertices moved in place after the frame was built (centre-of-mass shift of a time series)
-            out[-1]["move"] = [float(rng.uniform(-30, 30)), float(rng.uniform(-30, 30))]
+            out[-1]["move"] = [float(rng.uniform(-3, 3)), float(rng.uniform(-3, 3))]
     for _ in range(n_str):
         ts = small_tissue_spec(rng, [0, 0, 0, 1, 2, 3, 5, 8, 15])
         ts["xf"] = rand_xf(rng)
